@@ -2161,7 +2161,9 @@ impl<T: Storage> Raft<T> {
                     return Ok(());
                 }
 
-                if self.prs().is_singleton() {
+                // The shortcut is only valid when the single voter is this leader
+                // itself (a leader that applied its own removal may still be around).
+                if self.prs().is_singleton() && self.prs().conf().voters().contains(self.id) {
                     let read_index = self.raft_log.committed;
                     if let Some(m) = self.handle_ready_read_index(m, read_index) {
                         self.r.send(m, &mut self.msgs);
